@@ -487,7 +487,8 @@ class FilePreferenceSaverThread: public ola::thread::Thread {
    * Notify the blocked thread we're done
    */
   void CompleteSynchronization(ola::thread::ConditionVariable *condition,
-                               ola::thread::Mutex *mutex);
+                               ola::thread::Mutex *mutex,
+                               bool *complete);
 };
 
 
